@@ -216,24 +216,24 @@ def check_identity(ent):
     cls = file_class(data)
     case = {"k": "identity", "file": ent["name"], "sha256": ent["sha256"]}
     st = {"reader_disagree": []}
-    try:
-        e = ELF(data)
-    except Exception as ex:
-        return [violation("identity:parse-raise-%s:%s" % (type(ex).__name__, cls),
-                          "ELF(%s) raised %r" % (ent["name"], ex), case)], st
-    try:
-        out = bytes(e)
-    except Exception as ex:
-        return [violation("identity:build-raise-%s:%s" % (type(ex).__name__, cls),
-                          "bytes(ELF(%s)) raised %r" % (ent["name"], ex), case)], st
+    cap = cap_for(data)
+    e, err = _guarded(lambda: ELF(data), cap)
+    if err:
+        return [violation("identity:parse-%s" % err, "ELF(%s) ends with %s (a toolchain-produced %s file is not accepted)"
+                          % (ent["name"], err, cls), case)], st
+    out, err = _guarded(lambda: bytes(e), cap)
+    if err:
+        return [violation("identity:build-%s" % err, "bytes(ELF(%s)) ends with %s" % (ent["name"], err), case)], st
     vs = []
     tables = elfcorpus.read_tables(data)
     if out != data:
         region, k = first_diff_region(data, out, tables)
-        vs.append(violation("identity:bytes-differ:%s:%s" % (region, cls),
+        vs.append(violation("identity:bytes-differ:%s" % region,
                             "bytes(ELF(%s)) differs from the file (%d vs %d bytes), first at offset %#x: %r became %r"
                             % (ent["name"], len(data), len(out), k, data[k:k + 8], out[k:k + 8]), case))
-    v = view(e)
+    v, err = _guarded(lambda: view(e), cap)
+    if err:
+        return vs + [violation("identity:tables-unreadable-%s" % err, "tables of ELF(%s) cannot be read: %s" % (ent["name"], err), case)], st
     # the sections the parser hands out must hold the file's bytes (baseline of "the same sections")
     for i, (sec, sh) in enumerate(zip(v["sections"], tables["shdrs"])):
         if sec[3] is None or sh["offset"] + sh["size"] > len(data):
@@ -282,7 +282,9 @@ def check_edit(ent, i, pos, xor, path, orig_view=None):
     data = ent["data"]
     cls = file_class(data)
     case = {"k": "edit", "file": ent["name"], "sha256": ent["sha256"], "section": i, "pos": pos, "xor": xor, "path": path}
-    e = ELF(data)
+    e, err = _guarded(lambda: ELF(data), cap_for(data))
+    if err:
+        return [], "base-parse-refused:%s" % err      # reported by the identity stage
     s = e.sh[i]
     sh = s.sh.cstr
     stype = sht_name(sh.type)
@@ -468,7 +470,10 @@ def _shard_inner(args):
         from miasm.loader.elf_init import ELF
         _quiet()
         sections, paths, xors = payload
-        ov = view(ELF(ent["data"]))
+        ov, err = _guarded(lambda: view(ELF(ent["data"])), cap_for(ent["data"]))
+        if err:
+            _bump(res["outcomes"], "edit:base-parse-refused:" + err)
+            return res
         for i in sections:
             for pos in ("first", "last"):
                 for xor in xors:
